@@ -16,6 +16,8 @@ import (
 	"strconv"
 	"strings"
 	"time"
+
+	"verifsim/simrt"
 )
 
 // Violation is a property violation found in one run.
@@ -84,6 +86,10 @@ func main() {
 		out.Write(b)
 		out.WriteByte('\n')
 	}
+	// Load every schema before the first run: schema unzipping iterates maps through the
+	// seam and would otherwise consume permutation draws in whichever run happens to be
+	// first in a process, making that run differ from its own replay.
+	preload()
 	if *smoke {
 		smokeRun(emit)
 		return
@@ -125,7 +131,13 @@ func main() {
 			break
 		}
 		seed := s
+		simrt.ResetStats()
 		r := safeRun(*prop, seed, func() *Result { return p.Run(seed, *tier) })
+		if r.Extra == nil {
+			r.Extra = map[string]any{}
+		}
+		r.Extra["map_events"] = simrt.Main().MapEvents
+		r.Extra["map_hash"] = fmt.Sprintf("%016x", simrt.Main().Hash)
 		if r.Sample != nil && !(n < 3 || (*sampleEach > 0 && n%*sampleEach == 0)) && r.Violation == nil {
 			r.Sample = nil
 		}
